@@ -16,6 +16,8 @@
 package quickfix
 
 import (
+	"bytes"
+
 	"github.com/quickfixgo/quickfix/datadictionary"
 )
 
@@ -363,6 +365,14 @@ func getFieldType(d *datadictionary.DataDictionary, field int) (*datadictionary.
 	return fieldType, isMessageField
 }
 
+func isMultipleValueType(fieldType string) bool {
+	switch fieldType {
+	case "MULTIPLESTRINGVALUE", "MULTIPLEVALUESTRING", "MULTIPLECHARVALUE":
+		return true
+	}
+	return false
+}
+
 func checkFieldNotDefined(settings ValidatorSettings, field Tag) bool {
 	fail := false
 	if int(field) < UserDefinedTagMin {
@@ -392,6 +402,15 @@ func validateField(d *datadictionary.DataDictionary,
 	}
 
 	allowedValues := d.FieldTypeByTag[int(field.tag)].Enums
+	if isMultipleValueType(fieldType.Type) && len(allowedValues) != 0 {
+		// A space separated list: every element has to be one of the enumerated values.
+		for _, value := range bytes.Split(field.value, []byte{' '}) {
+			if _, validValue := allowedValues[string(value)]; !validValue {
+				return ValueIsIncorrect(field.tag)
+			}
+		}
+		allowedValues = nil
+	}
 	if len(allowedValues) != 0 {
 		if _, validValue := allowedValues[string(field.value)]; !validValue {
 			return ValueIsIncorrect(field.tag)
